@@ -12,7 +12,7 @@ import time
 import traceback
 
 HERE = os.path.dirname(os.path.dirname(os.path.abspath(__file__)))
-CONTRACT_MODULES = ['classes', 'c_crypto', 'c_message']
+CONTRACT_MODULES = ['classes', 'rfc_spec', 'c_crypto', 'c_message', 'c_encode', 'c_message_bytes']
 TIMEOUT_MS = {'quick': 10000, 'thorough': 60000}
 
 _REPO = None
